@@ -24,8 +24,11 @@ wt = tempfile.mkdtemp(prefix='seedchk_', dir='/tmp'); os.rmdir(wt)
 subprocess.run(['git', '-C', '/repo', 'worktree', 'add', '-q', '--detach', wt, 'HEAD'], check=True)
 res = dict(property=prop, seed=f'{os.path.basename(os.path.normpath(sd))}/{k}', repo_head=subprocess.run(['git','-C','/repo','rev-parse','--short','HEAD'],capture_output=True,text=True).stdout.strip())
 try:
+    demo_in_wt = os.path.join(wt, '_seed_demo.py')      # the script's directory comes first on sys.path: run it from the scratch tree
+    shutil.copyfile(demo, demo_in_wt)
+
     def run_demo():
-        r = subprocess.run([PY, demo], cwd=wt, env=dict(os.environ, PYTHONPATH=wt, MPLBACKEND='Agg'), capture_output=True, text=True, timeout=1800)
+        r = subprocess.run([PY, demo_in_wt], cwd=wt, env=dict(os.environ, PYTHONPATH=wt, MPLBACKEND='Agg'), capture_output=True, text=True, timeout=1800)
         return r.returncode, (r.stdout + r.stderr)[-600:]
     rc0, out0 = run_demo()
     res['demo_clean_rc'] = rc0
@@ -37,6 +40,7 @@ try:
     rc1, out1 = run_demo()
     res['demo_patched_rc'] = rc1
     res['demo_patched_tail'] = out1[-300:]
+    os.remove(demo_in_wt)
     t = subprocess.run([PY, '-m', 'pytest', '-q', '-p', 'no:cacheprovider', '-x', 'tests'], cwd=wt, env=dict(os.environ, PYTHONPATH=wt, MPLBACKEND='Agg'),
                        capture_output=True, text=True, timeout=3600)
     res['tests_tail'] = (t.stdout.strip().splitlines() or ['?'])[-1]
